@@ -224,4 +224,28 @@ func registerRound5() {
 			return fs
 		}})
 	}
+
+	// ---------------------------------------------------------------- C07: descriptor exhaustion at accept time:
+	// while the bystander's connection is open, accept fails with EMFILE (the new connection stays in the
+	// backlog); the bystander is served on, and the new client is served once a descriptor is free again
+	for _, inflight := range []bool{false, true} {
+		by := ConnSpec{Ops: []string{"bind", "search"}, Segs: []int{1, 1}, Sync: true, SendNote: "accept-refused", Expect: 2, Name: "bystander"}
+		if inflight {
+			by.H = map[int]*HSpec{2: {Yields: 2}}
+		}
+		regSpec(&Spec{
+			Name: fmt.Sprintf("accept-fails-for-lack-of-descriptors-inflight%v", inflight), Props: []string{"C07", "C11"},
+			Conns: []ConnSpec{by, {Ops: []string{"bind", "search"}, Segs: []int{1, 1}, Expect: 2, Name: "fresh", WaitNote: "bystander-connected"}},
+			Extra: func(w *World) {
+				vrt.GoNamed("watch", func() {
+					vrt.WaitUntil("accepted", func() bool { return vnet.Accepted() > 0 })
+					vnet.SetDescriptorLimit(1)
+					vrt.Atomic(func() { w.Notes["bystander-connected"]++ })
+					vrt.WaitUntil("refused", func() bool { return vnet.RefusedForDescriptors() > 0 })
+					vrt.Atomic(func() { w.Notes["accept-refused"]++ })
+				})
+			},
+			Check: servedCheck("C07", "a connection is not served while or after accepts fail for lack of descriptors"), Quick: 2, Thor: 3,
+		})
+	}
 }
